@@ -6,8 +6,14 @@ theorems : lean/GoldModel/Props/C06.lean — ladder_spec (the operator ladder re
            operator_pairs (all 23 x 23 operator pairs, kernel-evaluated on the model:
            `a op1 b op2 c` binds by precedence and associates to the left), range lemmas;
            lean/GoldModel/Props/C06Expr.lean — expr_roundtrip / level_roundtrip / expr_roundtrip_memo: parse_expr (print e ++ k)
-           = (tree e, k, no diagnostics) for every well-formed expression e of the full expression grammar (unbounded).
-tie      : E5 (operator ladder) regenerated from the source; `parse` correspondence.
+           = (tree e, k, no diagnostics) for every well-formed expression e of the full expression grammar (unbounded);
+           lean/GoldModel/Props/C06Prog.lean — stmt_roundtrip / body_roundtrip / block_roundtrip / decl_roundtrip / prog_roundtrip /
+           prog_roundtrip_memo / prog_roundtrip_ex: parse_gold (print p) = (tree p, no diagnostics) for every well-formed PROGRAM p
+           (statements, declarations, types; any size and nesting; expressions abstract, instantiated with Ex);
+           lean/GoldModel/Props/C06ProgText.lean — prog_text_roundtrip: the same from the TEXT (lex_render_layout composed).
+tie      : E5 (operator ladder) regenerated from the source; `parse` correspondence; `exspec` / `progspec`: the Lean specification
+           (Ex / Prog: toks, tree, wfb) evaluated on the real lexer's tokens must re-print them and equal the tree the real parser
+           built (ranges and selection ranges included), zero diagnostics.
 oracle   : grammar-directed generator that emits text + expected tree (vlib/gen/wf.py):
            parse_gold(lex(text)) must have zero diagnostics and the expected shape; every
            node's range encloses its children's; the innermost node at an identifier is it.
@@ -83,10 +89,11 @@ def run(ctx):
         "the generator vlib/gen/wf.py IS the statement of 'the tree the grammar prescribes' for the oracle (a second, independent description of the grammar)",
     ]
     ctx.assumptions += [
-        "PARTIAL: the round-trip theorem parse(print p) = expected p is proved for EXPRESSIONS (Props/C06Expr: the full grammar of parse_expr — atoms, "
-        "parentheses, 23 binary operators, prefix/postfix operators, member-access chains with calls and indexing, set literals; no comments between the "
-        "tokens), not for statements and declarations; also proved are the ladder, left-association of the fold, and the complete finite table of "
-        "operator pairs on the model; everything else is established by the generator oracle on the implementation",
+        "PARTIAL: the round-trip theorem parse(print p) = (tree p, no diagnostics) is proved for EXPRESSIONS (Props/C06Expr: the full grammar of "
+        "parse_expr) and for PROGRAMS (Props/C06Prog, unbounded): statements (assignment to any member-access chain, expression statements = every expression parse_assignment leaves alone incl. calls `f(x)` / `a.b.c(1)`, return, exit/break/continue, var [absolute], type, uses, const; if/elseif/else, while, loop, for [step], foreach, repeat/until, switch/when/else — statement lists of any length nested to any depth), declarations (proc/func with Name#Event, parameters, modifiers, forward/external without body, body cut out by take_until; const [multiLang], fields with memory/modifiers/absolute, class [(parent)], module, uses, type, annotations before class/module/type/field and on their own), types (names, sized, refTo/listOf [options] [inverse], ranges, sets, pointers, arrays, instanceOf, enumerations, sums, records, proc/func types); "
+        "NOT covered by a theorem: comments (the token parsers skip them, so where a comment becomes a node depends on what follows it), OQL, "
+        "annotations inside enumerations and records; these, and the implementation itself, are covered by the generator oracle and the ties "
+        "(exspec, progspec: the Lean specification evaluated on the real lexer's tokens = the tree the real parser built)",
     ]
     if ctx.replay:
         return replay(ctx)
@@ -96,6 +103,7 @@ def run(ctx):
     ctx.prove("GoldModel.Props.C06Alts")
     ctx.prove("GoldModel.Props.C06Text")
     ctx.prove("GoldModel.Props.C06Prog")
+    ctx.prove("GoldModel.Props.C06ProgText")
     if not ctx.build_harness():
         return ctx.finish(rule=RULE)
     q = ctx.tier == "quick"
